@@ -1765,7 +1765,19 @@ class Exec:
 
     def st_Try(self, s, env):
         if s.finalbody:
-            raise Unsupported("try/finally")
+            # try/finally: the final block runs on every way out of the protected part (normal
+            # end, return, raise, break, continue) and the way out is then resumed; an abandoned
+            # path (PathPruned) stays abandoned
+            try:
+                self._try_core(s, env)
+            except (ReturnSig, RaiseSig, BreakSig, ContinueSig):
+                self.run_block(s.finalbody, env)
+                raise
+            self.run_block(s.finalbody, env)
+            return
+        self._try_core(s, env)
+
+    def _try_core(self, s, env):
         try:
             self.run_block(s.body, env)
         except RaiseSig as r:
